@@ -42,10 +42,24 @@ deriving DecidableEq, Repr
 /-- UTF-8 bytes of a Lean string literal (constants from the source) -/
 def bytesOf (s : String) : Bytes := s.toUTF8.data.toList
 
-/-- `fmt.Sprintf("unknown exception type [%d]", t)` -/
-def unknownTypeText (t : Int) : Bytes :=
-  -- FACT-TODO: format string literal of ApplicationException.Error (exception.go:131)
-  bytesOf "unknown exception type [" ++ bytesOf (toString t) ++ bytesOf "]"
+/-- split a format string at every `%d` verb (structural) -/
+def splitD : List Char → List Char → List (List Char)
+  | [], acc => [acc.reverse]
+  | '%' :: 'd' :: rest, acc => acc.reverse :: splitD rest []
+  | c :: rest, acc => splitD rest (c :: acc)
+
+def joinD (d : Bytes) : List (List Char) → Bytes
+  | [] => []
+  | [x] => bytesOf (String.ofList x)
+  | x :: rest => bytesOf (String.ofList x) ++ d ++ joinD d rest
+
+/-- `fmt.Sprintf(format, t)` for a format whose only verbs are `%d` and an int32 argument -/
+def sprintfD (fmt : String) (t : Int) : Bytes := joinD (bytesOf (toString t)) (splitD fmt.toList [])
+
+/-- `fmt.Sprintf("unknown exception type [%d]", t)` (exception.go:131); the format literal is
+    regenerated from the source (`Facts.appExcUnknownFormat`); `Lemmas/Except.unknownFormat_parts`
+    checks it has exactly one `%d` verb -/
+def unknownTypeText (t : Int) : Bytes := sprintfD Facts.appExcUnknownFormat t
 
 /-- `(*ApplicationException).Error()` (exception.go:124-132); also the `Error()` of
     TransportException and ProtocolException (embedded, "same implementation") -/
@@ -129,17 +143,43 @@ def peIs (t : Int) (m : Bytes) (cause : Option Err) (tg : Err) : Bool :=
   | some c => errorsIs c tg
   | none => false
 
+/-- one `if t, ok := err.(T); ok { return New…(t.TypeID(), prepend+t.Error()) }` of PrependError:
+    `some result` iff the assertion to the type named `ty` succeeds. The first three are exact
+    pointer types, `tException` is the interface (anything with `TypeId`). -/
+def prependBranch (fresh : Nat) (p : Bytes) (ty : String) (e : Err) : Option Err :=
+  if ty = "*TransportException" then
+    match e with
+    | .transport _ t m => some (.transport fresh t (p ++ appText t m))
+    | _ => none
+  else if ty = "*ProtocolException" then
+    match e with
+    | .protocol _ t m => some (.protocol fresh t (p ++ appText t m))
+    | .protocolW _ t m _ => some (.protocol fresh t (p ++ appText t m))   -- the cause is not carried over
+    | _ => none
+  else if ty = "*ApplicationException" then
+    match e with
+    | .application _ t m => some (.application fresh t (p ++ appText t m))
+    | _ => none
+  else if ty = "tException" then
+    match e.typeId with
+    | some t => some (.application fresh t (p ++ e.text))
+    | none => none
+  else none
+
+/-- the chain of type tests in source order, then `errors.New(prepend + err.Error())` -/
+def prependDispatch (fresh : Nat) (p : Bytes) (e : Err) : List String → Err
+  | [] => .plain fresh (p ++ e.text)
+  | ty :: rest =>
+    match prependBranch fresh p ty e with
+    | some r => r
+    | none => prependDispatch fresh p e rest
+
 /-- `PrependError(prepend, err)` (exception.go:214-228); `fresh` is the identity of the new object.
-    The type switch tests exact pointer types in the order transport, protocol, application, then the
-    `tException` interface, else plain. A protocol exception's cause is not carried over. -/
-def prependError (fresh : Nat) (p : Bytes) : Err → Err
-  | .transport _ t m => .transport fresh t (p ++ appText t m)
-  | .protocol _ t m => .protocol fresh t (p ++ appText t m)
-  | .protocolW _ t m _ => .protocol fresh t (p ++ appText t m)
-  | .application _ t m => .application fresh t (p ++ appText t m)
-  | .foreign _ t tx => .application fresh t (p ++ tx)
-  | .plain _ msg => .plain fresh (p ++ msg)
-  | .wrapped _ msg _ => .plain fresh (p ++ msg)
+    The order of the type tests is regenerated from the source (`Facts.prependErrorOrder`): were the
+    `tException` test moved to the front, transport and protocol exceptions would come out as
+    application exceptions and `Lemmas/Except.prependError_eq` (hence `prepend_kind`) would not build. -/
+def prependError (fresh : Nat) (p : Bytes) (e : Err) : Err :=
+  prependDispatch fresh p e Facts.prependErrorOrder
 
 /-- `NewProtocolExceptionWithErr(err)` (exception.go:185-193), err non-nil -/
 def wrapErr (fresh : Nat) : Err → Err
